@@ -1,11 +1,48 @@
 //! Directory snapshots and scratch directories.
 use std::{collections::BTreeMap, fs, io::Read, path::{Path, PathBuf}};
 
+fn disk_root() -> PathBuf {
+    PathBuf::from(std::env::var("LV_SCRATCH_DISK").unwrap_or_else(|_| "/verif/work/scratch".to_string()))
+}
+fn shm_root() -> PathBuf {
+    PathBuf::from("/dev/shm/lv-scratch")
+}
+
+/// Scratch directories live on tmpfs when there is one (directory-heavy replays are 10x faster there than on the
+/// disk image); LV_SCRATCH overrides.
 pub fn scratch_root() -> PathBuf {
-    let base = std::env::var("LV_SCRATCH").unwrap_or_else(|_| "/verif/work/scratch".to_string());
-    let p = PathBuf::from(base);
-    fs::create_dir_all(&p).unwrap();
-    p
+    static ROOT: std::sync::OnceLock<PathBuf> = std::sync::OnceLock::new();
+    ROOT.get_or_init(|| {
+        if let Ok(b) = std::env::var("LV_SCRATCH") {
+            let p = PathBuf::from(b);
+            fs::create_dir_all(&p).unwrap();
+            return p;
+        }
+        let shm = shm_root();
+        if fs::create_dir_all(&shm).is_ok() && fs::write(shm.join(".probe"), b"x").is_ok() {
+            let _ = fs::remove_file(shm.join(".probe"));
+            return shm;
+        }
+        let p = disk_root();
+        fs::create_dir_all(&p).unwrap();
+        p
+    })
+    .clone()
+}
+
+/// Removes scratch directories left behind by harness processes that no longer exist.
+pub fn sweep_stale() {
+    for root in [disk_root(), shm_root()] {
+        for e in fs::read_dir(&root).into_iter().flatten().flatten() {
+            let name = e.file_name().to_string_lossy().to_string();
+            let pid = name.split('_').rev().nth(1).and_then(|x| x.parse::<u32>().ok());
+            if let Some(pid) = pid {
+                if !Path::new(&format!("/proc/{}", pid)).exists() {
+                    let _ = fs::remove_dir_all(e.path());
+                }
+            }
+        }
+    }
 }
 
 pub struct Scratch(pub PathBuf);
@@ -19,16 +56,14 @@ impl Scratch {
         fs::create_dir_all(&p).unwrap();
         Scratch(p)
     }
-    /// a scratch directory on another filesystem than the scratch root (tmpfs at /dev/shm), if there is one
+    /// a scratch directory on another filesystem than the scratch root, if there is one
     pub fn other_mount(tag: &str) -> Option<Scratch> {
         use std::os::unix::fs::MetadataExt;
         use std::sync::atomic::{AtomicUsize, Ordering};
         static N: AtomicUsize = AtomicUsize::new(0);
-        let shm = Path::new("/dev/shm");
-        if fs::metadata(shm).ok()?.dev() == fs::metadata(scratch_root()).ok()?.dev() {
-            return None;
-        }
-        let p = shm.join(format!("lv_{}_{}_{}", tag, std::process::id(), N.fetch_add(1, Ordering::Relaxed)));
+        let here = fs::metadata(scratch_root()).ok()?.dev();
+        let other = [disk_root(), shm_root()].into_iter().find(|r| fs::create_dir_all(r).is_ok() && fs::metadata(r).map(|m| m.dev() != here).unwrap_or(false))?;
+        let p = other.join(format!("x{}_{}_{}", tag, std::process::id(), N.fetch_add(1, Ordering::Relaxed)));
         let _ = fs::remove_dir_all(&p);
         fs::create_dir_all(&p).ok()?;
         Some(Scratch(p))
